@@ -17,7 +17,10 @@ THEOREMS = ['C19.shipped_notations_show_their_arguments', 'C19.shipped_notations
             # operands of the pretty steps (Props/C19b.lean, PrettyOperands.lean): the slot a pretty `Load` line names is the operand of the
             # binary Load; ids, keys (the binary reverses them), symbol names through the table
             'C19.pretty_step_operands_match_binary', 'C19.pretty_call_operands_match_binary', 'C19.pretty_line_shows_operand',
-            'C19.pretty_load_names_the_binary_slot', 'C19.pretty_load_line_format', 'C19.pretty_symbol_through_the_table', 'C19.pretty_metavar_text']
+            'C19.pretty_load_names_the_binary_slot', 'C19.pretty_load_line_format', 'C19.pretty_symbol_through_the_table', 'C19.pretty_metavar_text',
+            # ... and for a constrained MetaVar (Props/C19c.lean): the text format is injective, the reader is total, the len= field is the length
+            'C19.pretty_step_operands_match_binary_all', 'C19.pretty_line_shows_operand_all', 'C19.pretty_metavar_text_injective',
+            'C19.pretty_metavar_text_shows_operands', 'C19.pretty_metavar_len_field', 'C19.pretty_step_operands_match_binary_checked']
 
 
 SYMS = ("s0", "s1", "foo", "⌈_⌉")
@@ -53,7 +56,7 @@ def gen_pp(rng, depth, nots, syms=SYMS):
 
 def run(rep):
     rng = random.Random(rep.seed * 1000003 + 19)
-    ok, detail = core.proof_gate(rep, 'Pi2.Props.C19b', THEOREMS)
+    ok, detail = core.proof_gate(rep, 'Pi2.Props.C19c', THEOREMS)
     quick = rep.tier == 'quick'
     nots = gen.shipped_notations()
     lines, laws = [], []
